@@ -306,33 +306,7 @@ func putDoesNotRetain(r *core.Run) {
 			r.Unknown("put-does-not-retain", name+" value parameter", site(r, f.Pos()), "no parameter named value")
 			continue
 		}
-		bad := ""
-		vals := []ssa.Value{par}
-		seenV := map[ssa.Value]bool{par: true}
-		for len(vals) > 0 {
-			v := vals[0]
-			vals = vals[1:]
-			for _, ref := range *v.Referrers() {
-				switch x := ref.(type) {
-				case *ssa.DebugRef, *ssa.BinOp:
-				case *ssa.Phi:
-					if !seenV[x] {
-						seenV[x] = true
-						vals = append(vals, x)
-					}
-				case ssa.CallInstruction:
-					if _, isGo := x.(*ssa.Go); isGo {
-						bad = "is handed to a goroutine"
-						break
-					}
-					if o := core.CalleeObj(x); o == nil || !okCallee[core.QualName(o)] {
-						bad = "is passed to " + calleeName(x)
-					}
-				default:
-					bad = fmt.Sprintf("flows into %T", ref)
-				}
-			}
-		}
+		bad := valueOnlyEncoded(r.P, par, okCallee, 0)
 		r.Check(bad == "", "put-does-not-retain", name+" value parameter", site(r, f.Pos()),
 			"the caller's value is only handed to the RESP encoder (which copies the bytes) or to the next Put/GetPut layer",
 			"the caller's value "+bad+": the caller's buffer may be retained after the call returns")
